@@ -1014,3 +1014,76 @@ Qed.
 (* the repaired allocation on the same state: an error that changes nothing *)
 Lemma big_heap_alloc_now : mh_alloc big_heap BIG = (big_heap, RErr EInvalidSize).
 Proof. exact (nofit_step big_heap (MAlloc BIG) ltac:(cbn [mh_fits bytes big_heap]; unfold BIG, VALUE_SIZE, USIZE; lia)). Qed.
+
+(* ------------------------------------------------------------------ fixed size *)
+Lemma size_step_fixed s o h d :
+  Inv s -> abs s h = Some d -> o <> MFree h ->
+  exists d', abs (fst (mh_step s o)) h = Some d' /\ length d' = length d.
+Proof.
+  intros HI Ha Hnf. destruct (opt_N_dec (op_target o) (Some h)) as [Ht|Ht];
+    [|exists d; split; [apply isolation_u; assumption|reflexivity]].
+  destruct o as [n|k|k off|k off v|k]; cbn [op_target] in Ht; inversion Ht; subst k; cbn [mh_step fst]; eauto.
+  - congruence.
+  - unfold mh_store. rewrite abs_nth in Ha. destruct (nth_N (allocs s) h) as [sl|] eqn:Hsl; [|discriminate].
+    destruct (sl_freed sl) eqn:Hfr; [discriminate|]. inversion Ha; subst d.
+    destruct (N.of_nat (length (sl_data sl)) <=? off).
+    + cbn [fst]. exists (sl_data sl). rewrite abs_nth, Hsl, Hfr. auto.
+    + cbn [fst]. exists (upd_N (sl_data sl) off v). rewrite abs_nth. cbn [allocs].
+      apply nth_N_Some in Hsl as [Hlt _]. rewrite nth_N_upd_eq by exact Hlt. cbn [sl_freed sl_data].
+      split; [reflexivity|apply length_upd_N].
+Qed.
+
+Lemma size_history_fixed os : forall s h d,
+  Inv s -> abs s h = Some d -> Forall (fun o => o <> MFree h) os ->
+  mh_size (mh_exec s os) h = ROkSize (N.of_nat (length d)).
+Proof.
+  induction os as [|o r IH]; intros s h d HI Ha Hall.
+  - cbn [mh_exec fold_left]. unfold mh_size. rewrite abs_nth in Ha.
+    destruct (nth_N (allocs s) h) as [sl|]; [|discriminate]. destruct (sl_freed sl); [discriminate|].
+    inversion Ha. reflexivity.
+  - inversion Hall as [|? ? H1 Hr]; subst. cbn [mh_exec fold_left]. fold (mh_exec (fst (mh_step s o)) r).
+    destruct (size_step_fixed s o h d HI Ha H1) as [d' [Ha' Hl]]. rewrite <- Hl.
+    apply IH; [apply mh_step_inv_u; exact HI|exact Ha'|exact Hr].
+Qed.
+
+(* ------------------------------------------------------------------ dead handles, for all histories *)
+(* After ANY history from the empty heap: a handle that the abstract map does not hold is rejected by
+   every access -- UseAfterFree / DoubleFree when it was ever issued (freed and not re-issued),
+   InvalidHandle when it never was -- and the rejected access changes nothing. *)
+Lemma dead_handle_all_histories os h :
+  let s := mh_exec mh_empty os in
+  let sp := fst (spec_run sp_empty os (snd (mh_run mh_empty os))) in
+  sm_get (live sp) h = None ->
+  let k1 := if mem_N h (issued sp) then EUseAfterFree else EInvalidHandle in
+  let k2 := if mem_N h (issued sp) then EDoubleFree else EInvalidHandle in
+  (forall off, mh_step s (MLoad h off) = (s, RErr k1))
+  /\ (forall off v, mh_step s (MStore h off v) = (s, RErr k1))
+  /\ mh_step s (MSize h) = (s, RErr k1)
+  /\ mh_step s (MFree h) = (s, RErr k2).
+Proof.
+  intros s sp Hd k1 k2.
+  destruct (mh_refines_history_lemma os mh_empty sp_empty inv_empty sim_empty) as [HI [_ HS]].
+  fold s in HI, HS. fold sp in HS.
+  assert (Ha : abs s h = None) by (rewrite (sim_get _ _ HS h); exact Hd).
+  destruct (stale_handle_rejected_lemma s h Ha) as [Hl [Hst [Hz Hf]]].
+  unfold k1, k2, dead_err in *. rewrite (sim_issued _ _ HS h). cbn [mh_step].
+  repeat split; intros; rewrite ?Hl, ?Hst, ?Hz, ?Hf; reflexivity.
+Qed.
+
+(* ------------------------------------------------------------------ the surfaces as driven by the extracted tables *)
+From Aelys Require Import Extracted.MemChecks Model.MemTab.
+
+Lemma vm_step_tab_eq sf maxh gc s o : vm_step_tab sf maxh gc s o = vm_step sf maxh gc s o.
+Proof.
+  destruct sf; destruct o as [a|a|h off|h off v];
+    repeat match goal with x : varg |- _ => destruct x as [?z| |] end;
+    cbv beta iota zeta delta [vm_step_tab checks_for assoc_N builtin_checks opcode_checks general_opcode opnum
+                              run_checks run_check cerr ekind_of_code args_of nth_error N.to_nat Pos.to_nat Pos.iter_op Nat.add
+                              N.eqb Pos.eqb map fst snd];
+    cbn [vm_step];
+    repeat match goal with |- context [if ?c then _ else _] => destruct c eqn:? end;
+    try reflexivity; try lia.
+Qed.
+
+Lemma source_tables_ok_lemma : source_tables_ok = true.
+Proof. vm_compute. reflexivity. Qed.
